@@ -12,7 +12,7 @@ from props.c01 import nm, em, em_ref
 PROP = 'C10'
 LEAN_TARGETS = ['CGV.Props.C10']
 RULE = ('fragmented molecules in which a random subset of the cut bonds is replaced by sharing one end atom ("!" pair), '
-        'incl. several shared atoms per fragment, one atom shared by three fragments, chains of shared atoms, shared '
+        'incl. several shared atoms per fragment, one atom shared by three fragments (star and mutually connected), chains of shared atoms, shared aromatic atoms, shared '
         'atoms that also carry ordinary descriptors; resolution executed by implementation and Lean model (exact '
         'dump); oracle: overlapping description resolves to the generator\'s molecule, node count = fragments\' atoms '
         'minus shared pairs, merged atoms belong to both coarse nodes; non-trivial = at least one shared pair')
@@ -51,6 +51,9 @@ def oracle(ctx, case, steps, ctor_err):
 
 
 def classify(case):
+    """Q2: a shared pair whose atom is aromatic (the hydrogen count of the kept copy ignores the bonds it inherits)"""
+    if any(k.startswith('aromatic') for k in case.get('shared_kinds', [])):
+        return 'Q2'
     return None
 
 
@@ -61,10 +64,14 @@ def run(ctx):
             break
         if i % 5 == 4:
             case = gen_mol.star_share_case(rng)
+        elif i % 5 == 3:
+            case = gen_mol.clique_share_case(rng)
         else:
-            case = gen_mol.cut_case(rng, nmax=10, share_p=rng.choice([0.3, 0.6, 1.0]), aromatic_p=0.0 if i % 4 else 0.3)
+            case = gen_mol.cut_case(rng, nmax=10, share_p=rng.choice([0.3, 0.6, 1.0]), aromatic_p=0.0 if i % 4 else 0.4)
         suites.run_resolve_case(ctx, 'mol-share', case, oracle=oracle)
         ctx.feature('shared=%d' % min(case['nshared'], 4))
+        for k in case.get('shared_kinds', []):
+            ctx.feature('shared-atom:' + k)
 
 
 def corpus_case(ctx, payload):
@@ -84,4 +91,12 @@ def replay(payload):
 
 
 def finding_still_fails(f):
-    return False
+    import json, os, check
+    path = os.path.join(lib.VERIF, f.get('witness', ''))
+    if not os.path.exists(path):
+        return None
+    with open(path) as fh:
+        payload = json.load(fh)
+    ctx = check.Ctx(PROP, 'quick', 0, oracle_only=True)
+    suites.run_resolve_case(ctx, 'finding', payload['case'], oracle=oracle, compare=False)
+    return bool(ctx.failures)
